@@ -2,7 +2,7 @@
    fails to compile if Props/C17.v is weakened, renamed or given other hypotheses. *)
 From Coq Require Import SpecFloat.
 Require Import Base Value Float PrintOptions Printer ParseOptions Utf8 Reader Scan Num NumberOps Parser.
-Require Import Utf8Proofs Utf8PrintProofs Utf8ParseProofs.
+Require Import Utf8Proofs Utf8PrintProofs Utf8ParseProofs DatumProofs Utf8StrProofs.
 Require Import Lexpr.Props.C17.
 
 Check (C17_printer_default :
@@ -24,6 +24,28 @@ Check (C17_parser_datum_entry_points :
 Check (C17_parser_every_call :
   forall ro alpha fast std_parse k fuel s o s', k <> SrcStr -> rk (rd s) = k ->
   next_value ro alpha fast std_parse fuel s = (POk (Some o), s') -> strs_valid o).
+
+Check (C17_str_input :
+  forall ro alpha fast std_parse W v, utf8_valid W = true ->
+  from_trait ro alpha fast std_parse SrcStr (bytes_events W) = POk v -> strs_valid v).
+
+Check (C17_str_input_datum :
+  forall ro alpha fast std_parse W d, utf8_valid W = true ->
+  datum_from_trait ro alpha fast std_parse SrcStr (bytes_events W) = POk d -> strs_valid (dvalue d)).
+
+Check (C17_str_every_call :
+  forall W ro alpha fast std_parse fuel s, utf8_valid W = true -> okr W (rd s) ->
+  match next_value ro alpha fast std_parse fuel s with
+  | (POk (Some v), s') => okr W (rd s') /\ strs_valid v
+  | (POk None, s') => okr W (rd s')
+  | (PErr _, _) => True
+  end).
+
+Check (C17_str_nonvacuous :
+  let W := s2b "(" ++ [206; 187] ++ s2b "x #:k ""a\x3bb;" ++ [240; 159; 146; 150] ++ s2b "\n"")" in
+  utf8_valid W = true /\
+  from_trait default_ro (fun _ => true) true dec_to_f64 SrcStr (bytes_events W) =
+    POk (vlist [Symbol [206; 187; 120]; Keyword (s2b "k"); String ([97; 206; 187; 240; 159; 146; 150; 10])])).
 
 Check (C17_valid_is_sequences :
   forall l, utf8_valid l = true <-> seqs l).
